@@ -426,6 +426,59 @@ pub fn families() -> Vec<Box<dyn Family>> {
             },
         ),
         family(
+            "line_lengths",
+            "lines of an EXACT byte length L (terminator included) for every L in 1..=300 and 2^k-2..=2^k+2 for k = 9..17 (fixed-size buffers, power-of-two blocks): a context line, a deleted and an inserted line of that length (ASCII, 2-byte and 3-byte characters, LF / CRLF / missing final newline) x {str,[u8]} x radius {0,1} through to_writer, Display and the short-writing sink + strict application",
+            true,
+            1,
+            |cfg| if cfg.tiny { 6 } else { 300 + 9 * 5 },
+            |idx, cfg, out| {
+                let l: usize = if cfg.tiny {
+                    1 + idx as usize * 3
+                } else if idx < 300 {
+                    idx as usize + 1
+                } else {
+                    let j = idx as usize - 300;
+                    (1usize << (9 + j / 5)) - 2 + j % 5
+                };
+                let mut rng = Rng::for_case(cfg.seed, "c05.line_lengths", idx);
+                // a line of exactly l bytes ending in `term` (content shortened to fit; never empty lines of 0 bytes)
+                let mk = |fill: &str, last: char, term: &str, l: usize| -> Option<String> {
+                    if l < term.len() + last.len_utf8() {
+                        return None;
+                    }
+                    let mut body = String::new();
+                    let room = l - term.len() - last.len_utf8();
+                    while body.len() + fill.len() <= room {
+                        body.push_str(fill);
+                    }
+                    while body.len() < room {
+                        body.push('.');
+                    }
+                    body.push(last);
+                    body.push_str(term);
+                    debug_assert_eq!(body.len(), l);
+                    Some(body)
+                };
+                let fill = *rng.pick(&["x", "ab ", "\u{e9}", "\u{20ac}", "w \u{1f600}"]);
+                let term = *rng.pick(&["\n", "\n", "\r\n"]);
+                let last_term = *rng.pick(&["\n", "", "\r\n"]);
+                let (Some(ctx_line), Some(del), Some(ins)) = (mk(fill, 'c', term, l), mk(fill, 'o', term, l), mk(fill, 'n', term, l)) else {
+                    // too short for this terminator: single-byte lines
+                    let (a, b) = (b"\n\n".to_vec(), b"\n".to_vec());
+                    case(cfg, Algorithm::Myers, &a, &b, &[Render { radius: 1, header: true, hint: true }], out);
+                    return;
+                };
+                let tail = mk(fill, 't', last_term, l.max(last_term.len() + 1)).unwrap();
+                let a = format!("{}{}{}", ctx_line, del, tail).into_bytes();
+                let b = format!("{}{}{}", ctx_line, ins, tail).into_bytes();
+                out.sample(|| format!("lines of exactly {} bytes (fill {:?}, terminators {:?} / last {:?})", l, fill, term, last_term));
+                out.nontrivial(&(l, fill, term, last_term));
+                out.count("exact_line_length_cases");
+                let alg = ALGS[rng.below(3)];
+                case(cfg, alg, &a, &b, &[Render { radius: 1, header: true, hint: true }, Render { radius: 0, header: false, hint: true }], out);
+            },
+        ),
+        family(
             "large_outputs",
             "renderings of 64 KiB and more: 6000..12000-line texts (thorough 40000) with up to 40 scattered edits rendered with radius 3 / 50 / usize::MAX (whole file as one hunk), header on/off — to_writer vs Display vs short-writing sink + strict application",
             false,
